@@ -308,15 +308,33 @@ func (m *memo) methodHolds(s routeSpec, q reqSpec) bool { return m.meth[s.Match]
 // or 405 and the Allow set, or 404. blind ignores the channel type (used only
 // to name the class of a mismatch, never as the oracle).
 func (m *memo) resolve(routes []routeSpec, q reqSpec, blind bool) (int, int, []string) {
+	return m.resolveFlipped(routes, q, blind, -1, 0)
+}
+
+const (
+	critPath = iota
+	critOthers
+	critMethod
+	nCrit
+)
+
+// resolveFlipped is resolve with the verdict of one criterion of one route
+// negated (flipRoute < 0: none). It is used only to name a mismatch after the
+// single criterion that explains it.
+func (m *memo) resolveFlipped(routes []routeSpec, q reqSpec, blind bool, flipRoute, flipCrit int) (int, int, []string) {
 	var allow []string
 	for i, s := range routes {
 		if !blind && !s.inbound() {
 			continue // outbound and internal routes are never reachable from ingress
 		}
-		if !m.pathHolds(s, q) || !m.othersHold(s, q) {
+		v := [nCrit]bool{m.pathHolds(s, q), m.othersHold(s, q), m.methodHolds(s, q)}
+		if i == flipRoute {
+			v[flipCrit] = !v[flipCrit]
+		}
+		if !v[critPath] || !v[critOthers] {
 			continue
 		}
-		if m.methodHolds(s, q) {
+		if v[critMethod] {
 			return http.StatusAccepted, i, nil
 		}
 		for _, x := range routeMethods(shapeCriteria[s.Match]) {
